@@ -120,18 +120,23 @@ fn judge_rk(tab: &Tableau, f: F, tol: f64, pts: &[(f64, Vec<f64>)], out: &mut Ju
             k.push(f(t + tab.c[s] * h, &arg));
             args.push(arg);
         }
-        // secant estimate of the local Lipschitz constant from the stage data: the solver forms its stage
-        // arguments in a different operation order, so they differ from the reference's by an ulp of |y|+h|f|,
-        // and the stage values by that times the Jacobian
-        let mut lip = 1.0f64;
-        for a in 0..k.len() {
-            for b in a + 1..k.len() {
-                let d = ninf(&sub(&args[a], &args[b]));
-                if d > 1e-9 * (ninf(y) + 1e-300) {
-                    lip = lip.max(ninf(&sub(&k[a], &k[b])) / d);
-                }
+        // local sensitivities of f by finite differences in the harness: the solver forms its stage arguments in a
+        // different operation order (they differ from the reference's by an ulp of |y| + h|f|) and rounds its stage
+        // times t + c_i h to eps |t|; the stage values move by those times |df/dy| and |df/dt|
+        let (lip_t, lip) = {
+            let f0 = &k[0];
+            let dt = 1e-6 * (1.0 + t.abs());
+            let lt = ninf(&sub(&f(t + dt, y), &f(t - dt, y))) / (2.0 * dt);
+            let mut ly = 0.0;
+            for j in 0..y.len() {
+                let dy = 1e-6 * (1.0 + y[j].abs());
+                let mut yp = y.clone();
+                yp[j] += dy;
+                ly += ninf(&sub(&f(t, &yp), f0)) / dy;
             }
-        }
+            (lt * 1.5 + 1e-12, (ly * 1.5f64).max(1.0))
+        };
+        let _ = &args;
         let fmax = k.iter().map(|v| ninf(v)).fold(0.0, f64::max);
         let unit = tmatch(y, h, fmax, t1);
         let mut best = f64::INFINITY;
@@ -157,7 +162,8 @@ fn judge_rk(tab: &Tableau, f: F, tol: f64, pts: &[(f64, Vec<f64>)], out: &mut Ju
         let e = ninf(&est);
         out.worst_est = out.worst_est.max(e / tol);
         let esum: f64 = tab.e.iter().map(|x| x.abs()).sum();
-        if !(e <= tol * (1.0 + 1e-9) + 8.0 * EPS * floor + 8.0 * EPS * lip * esum * (ninf(y) + h.abs() * fmax)) {
+        if std::env::var("VERIF_DEBUG").is_ok() && e > tol * (1.0 + 1e-9) + 8.0 * EPS * floor + 8.0 * EPS * lip * esum * (ninf(y) + h.abs() * fmax) + 8.0 * EPS * lip_t * esum * t1.abs() { eprintln!("DEBUG i {} e {:e} tol {:e} floor {:e} lip {:e} lip_t {:e} esum {} y {:e} h {:e} fmax {:e} t1 {}", i, e, tol, floor, lip, lip_t, esum, ninf(y), h, fmax, t1); }
+        if !(e <= tol * (1.0 + 1e-9) + 8.0 * EPS * floor + 8.0 * EPS * lip * esum * (ninf(y) + h.abs() * fmax) + 8.0 * EPS * lip_t * esum * t1.abs()) {
             out.classes.push('!');
             out.viols.push((i, "embedded-error-estimate-within-tolerance", format!("point {} (t={:?}, h={:e}): estimate per unit step {:e} exceeds tolerance {:e}", i, t1, h, e, tol)));
             continue;
